@@ -125,6 +125,11 @@ class Events(core.Scenario):
             self.A = peer.sid_of(peer.open_polling(w))
             if tr == 'websocket':
                 self.ws = peer.do_upgrade(w, self.A)
+        if p.get('mid_upgrade'):
+            # the session is in the middle of an upgrade handshake (probe answered, UPGRADE not sent yet) when it is ended
+            self.ws = peer.ws_upgrade(w, self.A)
+            w.ws_send(self.ws, '2probe')
+            w.run()
         self.B = peer.sid_of(peer.open_polling(w))
         self.pollB = peer.poll(w, self.B)
         self.pollA = peer.poll(w, self.A) if tr == 'polling' and p.get('poll', True) else None
@@ -320,6 +325,10 @@ def param_list(ctx):
             for cs in pairs:
                 for dh in (('record', 'yield') if ctx.quick else ('record', 'yield', 'raise')):
                     ps.append({'impl': impl, 'transport': tr, 'causes': list(cs), 'dh': dh})
+            if tr == 'polling':
+                for c in ('post_close', 'api_disc', 'post_bad', 'post_oversize'):
+                    for dh in ('record', 'yield'):
+                        ps.append({'impl': impl, 'transport': tr, 'causes': [c], 'dh': dh, 'poll': False, 'mid_upgrade': True})
             if impl == 'async' and tr == 'polling':
                 # disconnect() of everybody while the first session has no poll waiting (its client is between two polls): the
                 # asyncio server ends the sessions side by side, the other one is not kept waiting
